@@ -37,16 +37,17 @@ pub struct C18Case {
 
 pub fn c18_case() -> impl Strategy<Value = C18Case> {
     let op = prop_oneof![
-        5 => (0u8..2, 0u8..8, prop::option::weighted(0.25, 0u8..5), 0u8..4).prop_map(|(entry, route, clean, how)| HOp::Invoke { entry, route, clean, how }),
-        3 => (0u8..4, 0u8..3).prop_map(|(input, kind)| HOp::Edit { input, kind }),
+        5 => (0u8..2, 0u8..11, prop::option::weighted(0.25, 0u8..7), 0u8..4).prop_map(|(entry, route, clean, how)| HOp::Invoke { entry, route, clean, how }),
+        3 => (0u8..6, 0u8..3).prop_map(|(input, kind)| HOp::Edit { input, kind }),
         1 => Just(HOp::ToggleFail),
     ];
     (any::<bool>(), prop::collection::vec(op, 3..=9)).prop_map(|(root_named, ops)| C18Case { root_named, ops })
 }
 
 /// Targets: 0 = root a, 1 = sub::b, 2 = root c (consumes sub::b.output), 3 = sub::f (fails on
-/// demand), 4 = sub::d (depends on b).
-const NT: usize = 5;
+/// demand), 4 = sub::d (depends on b), 5 = sub::b-1 and 6 = sub::b_1 (names that differ by one
+/// punctuation character only).
+const NT: usize = 7;
 
 struct Layout {
     root_named: bool,
@@ -60,7 +61,9 @@ impl Layout {
             1 => "sub::b".into(),
             2 => format!("{}c", r),
             3 => "sub::f".into(),
-            _ => "sub::d".into(),
+            4 => "sub::d".into(),
+            5 => "sub::b-1".into(),
+            _ => "sub::b_1".into(),
         }
     }
     fn deps(&self, t: usize) -> Vec<usize> {
@@ -92,6 +95,8 @@ fn setup(sb: &Sandbox, l: &Layout) {
     sb.write("proj/sub/bsrc/b.txt", b"b-1\n");
     sb.write("proj/sub/dsrc/d.txt", b"d-1\n");
     sb.write("proj/sub/fsrc/f.txt", b"f-1\n");
+    sb.write("proj/sub/xsrc/x.txt", b"x-1\n");
+    sb.write("proj/sub/ysrc/y.txt", b"y-1\n");
     let mut root = serde_json::Map::new();
     if l.root_named {
         root.insert("name".into(), json!("root"));
@@ -114,6 +119,8 @@ fn setup(sb: &Sandbox, l: &Layout) {
                 "b": {"build": script("sub::b", "mkdir -p bout && cp bsrc/b.txt bout/b.txt"), "input": [{"paths": ["bsrc"]}, {"cmd_stdout": "cat bsrc/b.txt"}], "output": [{"paths": ["bout"]}]},
                 "d": {"dependencies": ["b"], "build": script("sub::d", "mkdir -p dout && cp dsrc/d.txt dout/d.txt"), "input": [{"paths": ["dsrc"]}], "output": [{"paths": ["dout"]}]},
                 "f": {"build": script("sub::f", "if [ -e \"$ZV_ROOT/fail\" ]; then exit 3; fi"), "input": [{"paths": ["fsrc"]}]},
+                "b-1": {"build": script("sub::b-1", "mkdir -p xout && cp xsrc/x.txt xout/x.txt"), "input": [{"paths": ["xsrc"]}], "output": [{"paths": ["xout"]}]},
+                "b_1": {"build": script("sub::b_1", "mkdir -p yout && cp ysrc/y.txt yout/y.txt"), "input": [{"paths": ["ysrc"]}], "output": [{"paths": ["yout"]}]},
             }
         }),
     );
@@ -135,7 +142,9 @@ fn resources(sb: &Sandbox, t: usize) -> Vec<MRes> {
             MRes::Files(vec![root.join("cout")], None),
         ],
         3 => vec![MRes::Files(vec![sub.join("fsrc")], None)],
-        _ => vec![MRes::Files(vec![sub.join("dsrc")], None), MRes::Files(vec![sub.join("dout")], None)],
+        4 => vec![MRes::Files(vec![sub.join("dsrc")], None), MRes::Files(vec![sub.join("dout")], None)],
+        5 => vec![MRes::Files(vec![sub.join("xsrc")], None), MRes::Files(vec![sub.join("xout")], None)],
+        _ => vec![MRes::Files(vec![sub.join("ysrc")], None), MRes::Files(vec![sub.join("yout")], None)],
     }
 }
 
@@ -150,7 +159,7 @@ enum Rec {
 fn route(l: &Layout, entry: u8, route: u8) -> (String, Vec<String>, Vec<usize>, &'static str) {
     let r = if l.root_named { "root::" } else { "" };
     if entry % 2 == 0 {
-        match route % 8 {
+        match route % 11 {
             0 => ("proj".into(), vec!["a".into()], vec![0], "root:bare-a"),
             1 => ("proj".into(), vec!["sub::b".into()], vec![1], "root:qualified-b"),
             2 => ("proj".into(), vec!["all".into()], vec![0, 1], "root:aggregate"),
@@ -158,15 +167,20 @@ fn route(l: &Layout, entry: u8, route: u8) -> (String, Vec<String>, Vec<usize>, 
             4 => ("proj".into(), vec![format!("{}a", r), "sub::d".into()], vec![0, 4], "root:qualified-a+d"),
             5 => ("proj".into(), vec!["sub::f".into()], vec![3], "root:f"),
             6 => ("proj".into(), vec!["sub::f".into(), "sub::b".into()], vec![3, 1], "root:f+b"),
+            7 => ("proj".into(), vec!["sub::b-1".into()], vec![5], "root:b-1"),
+            8 => ("proj".into(), vec!["sub::b_1".into(), "a".into()], vec![6, 0], "root:b_1+a"),
             _ => ("proj".into(), vec!["c".into(), "a".into(), "sub::b".into()], vec![2, 0, 1], "root:c+a+b"),
         }
     } else {
-        match route % 8 {
+        match route % 11 {
             0 | 1 => ("proj/sub".into(), vec!["b".into()], vec![1], "sub:bare-b"),
             2 => ("proj/sub".into(), vec!["sub::b".into()], vec![1], "sub:qualified-b"),
             3 | 4 => ("proj/sub".into(), vec!["d".into()], vec![4], "sub:b-as-dependency-of-d"),
             5 => ("proj/sub".into(), vec!["f".into()], vec![3], "sub:f"),
             6 => ("proj/sub".into(), vec!["f".into(), "b".into()], vec![3, 1], "sub:f+b"),
+            7 => ("proj/sub".into(), vec!["b-1".into()], vec![5], "sub:b-1"),
+            8 => ("proj/sub".into(), vec!["b_1".into()], vec![6], "sub:b_1"),
+            9 => ("proj/sub".into(), vec!["b_1".into(), "sub::b-1".into()], vec![6, 5], "sub:b_1+b-1"),
             _ => ("proj/sub".into(), vec!["b".into(), "sub::b".into(), "d".into()], vec![1, 4], "sub:both-spellings+d"),
         }
     }
@@ -198,11 +212,13 @@ pub fn eval_c18(case: &C18Case) -> CaseResult {
             }
             HOp::Edit { input, kind } => {
                 counter += 1;
-                let (rel, tag) = match input % 4 {
+                let (rel, tag) = match input % 6 {
                     0 => ("proj/asrc/a.txt", "a"),
                     1 => ("proj/sub/bsrc/b.txt", "b"),
                     2 => ("proj/csrc/c.txt", "c"),
-                    _ => ("proj/sub/dsrc/d.txt", "d"),
+                    3 => ("proj/sub/dsrc/d.txt", "d"),
+                    4 => ("proj/sub/xsrc/x.txt", "x"),
+                    _ => ("proj/sub/ysrc/y.txt", "y"),
                 };
                 match kind % 3 {
                     0 => {
@@ -234,13 +250,17 @@ pub fn eval_c18(case: &C18Case) -> CaseResult {
                             2 => "c".to_string(),
                             1 => "sub::b".to_string(),
                             3 => "sub::f".to_string(),
-                            _ => "sub::d".to_string(),
+                            4 => "sub::d".to_string(),
+                            5 => "sub::b-1".to_string(),
+                            _ => "sub::b_1".to_string(),
                         }
                     } else {
                         match u {
                             1 => "b".to_string(),
                             3 => "f".to_string(),
                             4 => "d".to_string(),
+                            5 => "b-1".to_string(),
+                            6 => "b_1".to_string(),
                             _ => "b".to_string(),
                         }
                     };
@@ -306,7 +326,7 @@ pub fn eval_c18(case: &C18Case) -> CaseResult {
                     break;
                 }
                 // compare, in dependency order
-                for &t in &[1usize, 0, 3, 2, 4] {
+                for &t in &[1usize, 0, 3, 2, 4, 5, 6] {
                     if !clo.contains(&t) {
                         // nothing outside the closure may run
                         if started(&trace, &l.id(t)) > 0 {
